@@ -6,7 +6,7 @@ CASES = {'quick': 5000, 'thorough': 100000}
 GATES = {
     'quick': {'evaluations': 8500, 'ops_changing_tokens': 7000, 'slot_kinds_seen': 12, 'op_kinds_seen': 60, 'list_position_cells': 12,
               'gap_checks': 1500, 'multi_value_at_index0_nonempty': 20, 'negative_index_ops': 150},
-    'thorough': {'evaluations': 400000, 'slot_kinds_seen': 12, 'op_kinds_seen': 70},
+    'thorough': {'evaluations': 250000, 'slot_kinds_seen': 12, 'op_kinds_seen': 70},
 }
 RULE = ('case = one accepted generated document parsed with default attribution (a third of them squeezed into 2..10-token blocks), '
         'then a history of 1..12 (thorough ..40) catalog operations: optional set/clear/replace, required replace, value-level '
